@@ -1,2 +1,67 @@
-(* Property C02 — statements follow. *)
-From Nitro Require Import Opt.Run.
+(* Property C02 — every spelling of a command line parses back to the assignment it spells.  Only statements. *)
+From Coq Require Import List Arith Bool ZArith.
+From Coq Require Import Init.Byte.
+From Nitro Require Import Base.Bytes Base.Res Opt.Token Opt.Decl Opt.ParserModel Opt.ParserCore Opt.ParserSpec Opt.Vocab Opt.Run
+  Opt.RefineDefs Opt.Corollaries Opt.CoreEq Opt.History Opt.Positional Opt.Lexical Opt.Refine5 Opt.Sample.
+Import ListNotations.
+
+(* For every declaration, every legal item list (any choice of --name v / --name=v / -c v / -c=v per occurrence, any bundling
+   of toggle letters, any interleaving, positionals inline or after --) and every environment: parsing the rendering gives
+   exactly the assignment of the items.  Values are arbitrary byte strings (str = list byte): empty, embedded '=', blanks,
+   non-ASCII, strings that look like options when given through '='. *)
+Theorem C02_render_parse_roundtrip : forall d e st items tail,
+  wf_decl d = true -> consistent d = true -> no_clash d = true -> aligned d st ->
+  wf_items d items tail = true ->
+  snd (parse d e st (render d items tail)) = assign d e items tail.
+Proof. exact (render_parse_roundtrip truthy falsy). Qed.
+Print Assumptions C02_render_parse_roundtrip.
+
+(* the spelling is unambiguous: a vector explains to at most one item list, and rendering that list gives the vector back *)
+Theorem C02_render_explain : forall d args items tail,
+  explain d false false false [] [] args = Ok (items, tail) -> render d items tail = args.
+Proof. exact render_explain. Qed.
+Print Assumptions C02_render_explain.
+Theorem C02_explain_render : forall d items tail,
+  wf_decl d = true -> consistent d = true -> no_prefix_clash d = true -> wf_items d items tail = true ->
+  explain d false false false [] [] (render d items tail) = Ok (items, tail).
+Proof. exact explain_render. Qed.
+Print Assumptions C02_explain_render.
+
+(* what the assignment is: value = the v given, multi list = the vs in item order, count = occurrences, positionals =
+   inline ones in order followed by the tail *)
+Theorem C02_assignment_is_the_aggregate : forall d e items tail r,
+  assign d e items tail = Ok r ->
+  (forall i o, nth_error (d_opts d) i = Some o ->
+     nth_error (r_opts r) i = Some (o_name o, src_val (opt_source e o (opt_values i items)))
+     /\ src_bad (opt_source e o (opt_values i items)) = false) /\
+  (forall i o, nth_error (d_multis d) i = Some o ->
+     nth_error (r_multis r) i = Some (m_name o, match src_val (multi_source e o (multi_values i items)) with Some l => l | None => [] end)
+     /\ src_bad (multi_source e o (multi_values i items)) = false) /\
+  (forall j t, nth_error (d_toggles d) j = Some t ->
+     nth_error (r_toggles r) j = Some (t_name t, match src_val (toggle_source truthy falsy e t (occurrences j items) (negations j items)) with Some z => z | None => 0%Z end)
+     /\ src_bad (toggle_source truthy falsy e t (occurrences j items) (negations j items)) = false) /\
+  r_pos r = inline_pos items ++ match tail with Some ps => ps | None => [] end.
+Proof. exact (assignment_reports truthy falsy). Qed.
+Print Assumptions C02_assignment_is_the_aggregate.
+
+(* K1 (known finding): without no_clash the round trip is false — toggles no-q and reversible q: --no-q is read as the toggle no-q *)
+Theorem C02_refuted_without_no_clash : exists d items tail,
+  wf_decl d = true /\ consistent d = true /\ wf_items d items tail = true /\ no_prefix_clash d = false /\
+  explain d false false false [] [] (render d items tail) <> Ok (items, tail).
+Proof.
+  exists {| d_opts := []; d_multis := [];
+            d_toggles := [{| t_name := skipn 2 no_prefix ++ nm 5; t_short := None; t_env := None; t_def := 0%Z; t_rev := false |};
+                          {| t_name := nm 5; t_short := None; t_env := None; t_def := 0%Z; t_rev := true |}];
+            d_allowed := None; d_greedy := false |}, [ItNo 1], None.
+  vm_compute. repeat split; try reflexivity. discriminate.
+Qed.
+Print Assumptions C02_refuted_without_no_clash.
+
+Module Examples.
+Example C02_ex_hyps : wf_decl sample_decl = true /\ consistent sample_decl = true /\ no_clash sample_decl = true
+                      /\ wf_items sample_decl sample_items sample_tail = true.
+Proof. repeat split; vm_compute; reflexivity. Qed.
+Example C02_ex_roundtrip : exists r, assign sample_decl sample_env sample_items sample_tail = Ok r
+   /\ map snd (r_opts r) = [Some (nm 6)] /\ map snd (r_multis r) = [[nm 7; nm 8]] /\ r_pos r = [nm 9; nm 10].
+Proof. eexists. vm_compute. repeat split. Qed.
+End Examples.
